@@ -235,9 +235,21 @@ def run_case(rec, case):
     roles = r.sample(L.ROLES, min(nenv, len(L.ROLES)))
     kconf_lines = []
     items = []     # (role, vendor, cls)
+    moved = set()
     for role in roles:
         default_cls = L.DEFAULT_CLASSES[soc].get(role)
-        if default_cls and r.random() < 0.55:
+        donors = [x for x in L.DEFAULT_CLASSES[soc] if x != role and x not in roles and x not in moved]
+        if donors and r.random() < 0.12:
+            # the configuration gives this role the built-in default class of ANOTHER (unused) role: the assignment
+            # from the build configuration applies, the envelope must land in THIS role's slot
+            donor = r.choice(donors)
+            moved.add(donor)
+            cls = L.DEFAULT_CLASSES[soc][donor]
+            infix = L.KCONFIG_INFIX[role]
+            kconf_lines.append(f'SB_CONFIG_SUIT_MPI_{infix}_VENDOR_NAME="{L.DEFAULT_VENDOR}"')
+            kconf_lines.append(f'SB_CONFIG_SUIT_MPI_{infix}_CLASS_NAME="{cls}"')
+            items.append((role, L.DEFAULT_VENDOR, cls))
+        elif default_cls and r.random() < 0.55:
             items.append((role, L.DEFAULT_VENDOR, default_cls))
         else:
             vendor = r.choice(VENDORS)
@@ -339,6 +351,8 @@ def run_case(rec, case):
             rec.count("feature:" + f_)
         if kconf_lines:
             rec.count("kconfig-assignment")
+        if moved:
+            rec.count("kconfig-moves-a-default-class")
         rec.count("invalid:" + str(invalid))
         key = b"".join(x for _, x, _ in placed) + f"{soc}/{base}/{invalid}/{[rl for rl, _, _ in placed]}".encode()
         rec.case(key, len(files) >= 2 or bool(feats) or bool(kconf_lines) or bool(invalid),
@@ -386,7 +400,8 @@ def finish(merged, tier, seed):
     cnt = merged["counters"]
     need = ["role:" + r for r in L.ROLES] + ["soc:nrf54h20", "soc:nrf9280", "invalid:unknown-class",
                                              "invalid:duplicate-role", "invalid:no-component-id", "invalid:oversize",
-                                             "feature:signed", "feature:stripped-something", "kconfig-assignment"]
+                                             "feature:signed", "feature:stripped-something", "kconfig-assignment",
+                                             "kconfig-moves-a-default-class"]
     for k in need:
         if cnt.get(k, 0) < 3:
             merged["inconclusive"].append(f"class {k} observed fewer than 3 times")
